@@ -22,6 +22,7 @@ type Env struct {
 	fn    *ssa.Function
 	depth int
 	unfold int
+	noNat bool
 }
 
 func (e *Env) with(name string, v Val) *Env {
@@ -564,6 +565,14 @@ func (fv *FV) evalCall(e *Expr, env *Env) Val {
 				fv.decls = append(fv.decls, ax)
 			}
 		}
+		if sf.Nat && !env.noNat && !strings.Contains(t, "!q") {
+			fv.eng.ensureNat(fv, env, sf)
+			ax := fmt.Sprintf("(assert (>= %s 0))", t)
+			if !fv.declS[ax] {
+				fv.declS[ax] = true
+				fv.decls = append(fv.decls, ax)
+			}
+		}
 		return Val{T: t, S: sf.Ret}
 	}
 	arg := func(i int) Val { return fv.evalSpec(e.Args[i], env) }
@@ -677,13 +686,46 @@ func (fv *FV) evalCall(e *Expr, env *Env) Val {
 		var h, l int
 		fmt.Sscan(hi, &h)
 		fmt.Sscan(lo, &l)
+		if !fv.bv {
+			// mathematical integers: bits [lo, hi] of a non-negative value, kept opaque (an
+			// uninterpreted function of hi, lo and the value): integer-mode callers only carry
+			// such values from a bit-vector-mode contract to their own contract, by congruence
+			x := arg(2)
+			t := fmt.Sprintf("(xtr %d %d %s)", h, l, x.T)
+			fv.noteIntWidth(t, h-l+1)
+			return Val{T: t, S: "Int"}
+		}
 		return Val{T: fmt.Sprintf("((_ extract %d %d) %s)", h, l, arg(2).T), S: bvSort(h - l + 1)}
 	case "zext":
 		var n int
 		fmt.Sscan(e.Args[0].Name, &n)
 		x := arg(1)
+		if !fv.bv {
+			return x
+		}
 		return Val{T: fmt.Sprintf("((_ zero_extend %d) %s)", n-bvWidth(x.S), x.T), S: bvSort(n)}
 	case "concat":
+		if !fv.bv {
+			// most significant part first; widths from the Go types (uint8 elements) or earlier extracts
+			var terms []string
+			shift := 0
+			for i := len(e.Args) - 1; i >= 0; i-- {
+				x := arg(i)
+				w := fv.intWidthOf(x)
+				if shift == 0 {
+					terms = append(terms, x.T)
+				} else {
+					terms = append(terms, fmt.Sprintf("(* %s %d)", x.T, uint64(1)<<uint(shift)))
+				}
+				shift += w
+			}
+			t := terms[0]
+			if len(terms) > 1 {
+				t = "(+ " + strings.Join(terms, " ") + ")"
+			}
+			fv.noteIntWidth(t, shift)
+			return Val{T: t, S: "Int"}
+		}
 		var parts []string
 		w := 0
 		for i := range e.Args {
@@ -887,4 +929,79 @@ func (fv *FV) resolveSpecFnSorts(sf *SpecFn) {
 			sf.PTypes[i] = t
 		}
 	}
+}
+
+
+// ensureNat checks once per run that a recursive spec function declared recfn[nat] cannot be
+// negative: assuming it is non-negative at every argument, its defining body is non-negative
+// (the induction step; the recursion descends on a parameter with a base case by construction).
+func (e *Engine) ensureNat(fv *FV, env *Env, sf *SpecFn) {
+	e.mu.Lock()
+	res, done := e.natOK[sf.Name]
+	e.mu.Unlock()
+	if done {
+		if !res {
+			panic(specFail("recfn[nat] " + sf.Name + ": the defining body is not provably non-negative"))
+		}
+		return
+	}
+	n := *env
+	n.vars = map[string]Val{}
+	n.noNat = true
+	n.unfold = 1 << 20
+	var decls, qv, qa []string
+	for i, pn := range sf.PNames {
+		if sf.PTypes[i] != nil {
+			panic(specFail("recfn[nat] " + sf.Name + ": only plain sorts are supported"))
+		}
+		c := fmt.Sprintf("natp_%s_%d", sf.Name, i)
+		decls = append(decls, fmt.Sprintf("(declare-const %s %s)", c, sf.Params[i]))
+		n.vars[pn] = Val{T: c, S: sf.Params[i]}
+		qv = append(qv, fmt.Sprintf("(x%d %s)", i, sf.Params[i]))
+		qa = append(qa, fmt.Sprintf("x%d", i))
+	}
+	body := fv.evalSpec(sf.Body, &n)
+	app := "(" + sf.Name + " " + strings.Join(qa, " ") + ")"
+	decls = append(decls, fmt.Sprintf("(assert (forall (%s) (! (>= %s 0) :pattern (%s))))", strings.Join(qv, " "), app, app))
+	o := &Obligation{Goal: fmt.Sprintf("(>= %s 0)", body.T)}
+	smt := buildSMT(e.u.prelude(nil, e.db, nil), strings.Join(decls, "\n"), o)
+	r, _ := raceSolvers(e.tmp, "recfn_nat_"+sf.Name, smt, 10, false, nil)
+	ok := r.Status == "unsat"
+	e.mu.Lock()
+	if e.natOK == nil {
+		e.natOK = map[string]bool{}
+	}
+	e.natOK[sf.Name] = ok
+	e.mu.Unlock()
+	if !ok {
+		panic(specFail("recfn[nat] " + sf.Name + ": the defining body is not provably non-negative (" + r.Status + ")"))
+	}
+}
+
+
+func (fv *FV) noteIntWidth(t string, w int) {
+	if fv.intW == nil {
+		fv.intW = map[string]int{}
+	}
+	fv.intW[t] = w
+}
+
+// intWidthOf: bit width of an integer-mode term that stands for an unsigned machine value.
+func (fv *FV) intWidthOf(x Val) int {
+	if w, ok := fv.intW[x.T]; ok {
+		return w
+	}
+	if x.Typ != nil {
+		if b, ok := x.Typ.Underlying().(*types.Basic); ok {
+			switch b.Kind() {
+			case types.Uint8:
+				return 8
+			case types.Uint16:
+				return 16
+			case types.Uint32:
+				return 32
+			}
+		}
+	}
+	panic(specFail("concat(): operand of unknown width in integer mode"))
 }
